@@ -4669,3 +4669,1019 @@ func rulePageTrimCoversSizeZero(r *Report, rule string) {
 		undecidedf("%s: trim to req.Size not found", fi.Name)
 	}
 }
+
+// ruleSeekAlwaysRepositions (K12, KV adapters): Iterator.Seek(k) must position
+// the engine cursor for every k: on every path it either calls the wrapped
+// engine iterator (Seek/SeekTo/restart) or marks the iterator invalid.  A
+// "fast path" that returns without repositioning when the target is not ahead
+// of the current key breaks backward seeks (entries between target and current
+// key are skipped).
+func ruleSeekAlwaysRepositions(r *Report, rule string) {
+	p := r.P
+	n := 0
+	for _, fi := range p.flist {
+		rel := relPkg(fi.Pkg.PkgPath)
+		if !strings.HasPrefix(rel, storeBase) || fi.Decl.Body == nil || fi.Decl.Recv == nil || fi.Obj.Name() != "Seek" {
+			continue
+		}
+		if strings.HasSuffix(rel, "/null") {
+			continue // the null store holds nothing: its iterator is a no-op by design
+		}
+		info := fi.Pkg.TypesInfo
+		g := buildCFG(info, fi.Decl.Body)
+		// repositioning calls: any call named Seek/SeekTo/restart other than a recursive self call, including inside closures
+		var repos []ast.Node
+		inspectNoLit(fi.Decl.Body, func(x ast.Node) bool {
+			if c, ok := x.(*ast.CallExpr); ok {
+				nm := calleeShortName(info, c)
+				if nm == "Seek" || nm == "SeekTo" || nm == "restart" {
+					repos = append(repos, c)
+				}
+				// a closure handed to a timer wrapper that seeks inside
+				for _, a := range c.Args {
+					if fl, ok := a.(*ast.FuncLit); ok {
+						for _, c2 := range callsDeep(fl.Body) {
+							if nm2 := calleeShortName(info, c2); nm2 == "Seek" || nm2 == "SeekTo" {
+								repos = append(repos, c)
+							}
+						}
+					}
+				}
+			}
+			return true
+		})
+		n++
+		r.Fn(fi)
+		ok := len(repos) > 0
+		why := "no engine seek call found"
+		if ok {
+			// every exit is preceded by a reposition, or marks the iterator invalid (store of false to a bool field)
+			for _, ex := range g.Exits() {
+				if ex.Kind == ExitPanic {
+					continue
+				}
+				covered := false
+				for _, rp := range repos {
+					lr, okr := g.Locate(rp)
+					if !okr {
+						// the call may be nested in an assignment node
+						for _, anc := range enclosing(fi.Decl.Body, rp) {
+							if l2, ok2 := g.Locate(anc); ok2 {
+								lr, okr = l2, true
+							}
+						}
+					}
+					if okr && (g.dom[lr.B.Index][ex.B.Index] || lr.B == ex.B) {
+						covered = true
+					}
+				}
+				if !covered {
+					// invalidation: `x.valid = false` in the exit block or a dominator
+					for _, nd := range ex.B.Nodes {
+						if as, isAs := nd.(*ast.AssignStmt); isAs && len(as.Rhs) == 1 && exprStr(as.Rhs[0]) == "false" {
+							covered = true
+						}
+					}
+				}
+				if !covered {
+					ok = false
+					why = "an exit is reachable without repositioning the engine cursor or invalidating the iterator"
+				}
+			}
+		}
+		r.Ob(rule, fi.Name+"/every-path-repositions-or-invalidates", fi.Decl.Pos(), ok, "Seek must reposition for every target ("+why+"): skipping the engine seek when the target is not ahead of the current key makes backward seeks no-ops")
+	}
+	if n < 4 {
+		undecidedf("Seek rule matched %d adapter iterators", n)
+	}
+}
+
+// ruleSentinelOffsetsGuarded (K11): a token filter that fabricates placeholder
+// tokens whose Start/End carry a negative sentinel ("no source span") must
+// never let the sentinel flow into an emitted offset.  In every package under
+// analysis/ that builds a Token literal with a negative constant Start or End,
+// each read of tok.Start / tok.End that is stored into a variable or another
+// token must execute only where a branch fact excludes the sentinel for that
+// very selector (`tok.End != -1`, `tok.End >= 0`, ...).  Otherwise a span that
+// ends in a placeholder gets End = -1 / keeps End 0 below its Start, and the
+// highlighter slices orig[Start:End] with Start > End.
+func ruleSentinelOffsetsGuarded(r *Report, rule string) {
+	p := r.P
+	// packages with a sentinel literal
+	sentinelPkgs := map[string]map[string]bool{} // pkg path -> field names carrying a negative sentinel
+	for _, fi := range p.flist {
+		rel := relPkg(fi.Pkg.PkgPath)
+		if fi.Decl.Body == nil || !strings.HasPrefix(rel, "analysis") {
+			continue
+		}
+		info := fi.Pkg.TypesInfo
+		ast.Inspect(fi.Decl.Body, func(x ast.Node) bool {
+			cl, ok := x.(*ast.CompositeLit)
+			if !ok {
+				return true
+			}
+			if nt := namedOf(info.TypeOf(cl)); nt == nil || nt.Obj().Name() != "Token" {
+				return true
+			}
+			for _, el := range cl.Elts {
+				kv, ok := el.(*ast.KeyValueExpr)
+				if !ok {
+					continue
+				}
+				id, ok := kv.Key.(*ast.Ident)
+				if !ok || (id.Name != "Start" && id.Name != "End") {
+					continue
+				}
+				if tv, ok := info.Types[kv.Value]; ok && tv.Value != nil && constant.Sign(tv.Value) < 0 {
+					if sentinelPkgs[fi.Pkg.PkgPath] == nil {
+						sentinelPkgs[fi.Pkg.PkgPath] = map[string]bool{}
+					}
+					sentinelPkgs[fi.Pkg.PkgPath][id.Name] = true
+				}
+			}
+			return true
+		})
+	}
+	n := 0
+	for _, fi := range p.flist {
+		fields := sentinelPkgs[fi.Pkg.PkgPath]
+		if fields == nil || fi.Decl.Body == nil {
+			continue
+		}
+		info := fi.Pkg.TypesInfo
+		var g *FCFG
+		isOffsetRead := func(e ast.Expr) *ast.SelectorExpr {
+			sel, ok := ast.Unparen(e).(*ast.SelectorExpr)
+			if !ok || !fields[sel.Sel.Name] {
+				return nil
+			}
+			if nt := namedOf(info.TypeOf(sel.X)); nt == nil || nt.Obj().Name() != "Token" {
+				return nil
+			}
+			return sel
+		}
+		check := func(at ast.Node, rhs ast.Expr) {
+			sel := isOffsetRead(rhs)
+			if sel == nil {
+				return
+			}
+			if g == nil {
+				g = buildCFG(info, fi.Decl.Body)
+			}
+			n++
+			want := exprStr(sel)
+			ok := factMatch(g.GuardsOf(at), func(f Fact) bool {
+				if f.Tag != nil {
+					return false
+				}
+				be, isBin := ast.Unparen(f.Expr).(*ast.BinaryExpr)
+				if !isBin {
+					return false
+				}
+				x, y, op := be.X, be.Y, be.Op
+				if exprStr(ast.Unparen(y)) == want {
+					x, y = y, x
+					switch op {
+					case token.LSS:
+						op = token.GTR
+					case token.GTR:
+						op = token.LSS
+					case token.LEQ:
+						op = token.GEQ
+					case token.GEQ:
+						op = token.LEQ
+					}
+				}
+				if exprStr(ast.Unparen(x)) != want {
+					return false
+				}
+				tv, isConst := info.Types[y]
+				if !isConst || tv.Value == nil {
+					return false
+				}
+				neg := constant.Sign(tv.Value) < 0
+				zero := constant.Sign(tv.Value) == 0
+				switch {
+				case op == token.NEQ && neg && f.Truth, op == token.EQL && neg && !f.Truth:
+					return true
+				case op == token.GEQ && zero && f.Truth, op == token.LSS && zero && !f.Truth:
+					return true
+				case op == token.GTR && neg && f.Truth, op == token.LEQ && neg && !f.Truth:
+					return true
+				}
+				return false
+			})
+			r.Fn(fi)
+			r.Ob(rule, fi.Name+"/read-of-"+sel.Sel.Name+"-excludes-placeholder", rhs.Pos(), ok,
+				"this package fabricates placeholder tokens with a negative "+sel.Sel.Name+"; "+want+" is copied into an emitted offset without a branch fact excluding the sentinel, so a span that includes a placeholder gets an offset below zero or an End below its Start and the highlighter slices out of range")
+		}
+		ast.Inspect(fi.Decl.Body, func(x ast.Node) bool {
+			switch s := x.(type) {
+			case *ast.AssignStmt:
+				if len(s.Lhs) == len(s.Rhs) {
+					for i := range s.Rhs {
+						check(s, s.Rhs[i])
+					}
+				}
+			case *ast.KeyValueExpr:
+				check(s, s.Value)
+			}
+			return true
+		})
+	}
+	if n < 2 {
+		undecidedf("sentinel offsets rule matched %d reads", n)
+	}
+}
+
+// ruleZeroTimeIsOpenEnd (K9): date range queries encode "no bound on this
+// side" as the zero time.Time - that is what DateRangeQuery marshals for an
+// unset endpoint and what the string form parses back.  Every conversion of an
+// endpoint to the numeric term space (t.UnixNano()) inside search/query must
+// therefore execute only under the branch fact !t.IsZero() for that same t;
+// deciding presence from anything else (the raw string, a flag) makes a
+// marshalled open-ended range come back bounded at year 1 / rejected.
+func ruleZeroTimeIsOpenEnd(r *Report, rule string) {
+	p := r.P
+	n := 0
+	for _, fi := range p.flist {
+		if fi.Decl.Body == nil || relPkg(fi.Pkg.PkgPath) != "search/query" {
+			continue
+		}
+		info := fi.Pkg.TypesInfo
+		var g *FCFG
+		ast.Inspect(fi.Decl.Body, func(x ast.Node) bool {
+			c, ok := x.(*ast.CallExpr)
+			if !ok {
+				return true
+			}
+			f := callee(info, c)
+			if f == nil || f.Name() != "UnixNano" || f.Pkg() == nil || f.Pkg().Path() != "time" {
+				return true
+			}
+			sel, ok := ast.Unparen(c.Fun).(*ast.SelectorExpr)
+			if !ok {
+				return true
+			}
+			if g == nil {
+				g = buildCFG(info, fi.Decl.Body)
+			}
+			want := exprStr(ast.Unparen(sel.X))
+			guarded := factMatch(g.GuardsOf(c), func(fc Fact) bool {
+				if fc.Tag != nil || fc.Truth {
+					return false
+				}
+				zc, ok := ast.Unparen(fc.Expr).(*ast.CallExpr)
+				if !ok {
+					return false
+				}
+				zf := callee(info, zc)
+				zs, ok2 := ast.Unparen(zc.Fun).(*ast.SelectorExpr)
+				return zf != nil && zf.Name() == "IsZero" && ok2 && exprStr(ast.Unparen(zs.X)) == want
+			})
+			n++
+			r.Fn(fi)
+			r.Ob(rule, fi.Name+"/"+want+"-converted-only-when-not-zero", c.Pos(), guarded,
+				"the endpoint "+want+" is turned into a numeric bound without the branch fact !"+want+".IsZero(): the zero time is how an open end is marshalled and parsed, so an open-ended range that went through JSON becomes bounded at year 1 (or is rejected as out of range)")
+			return true
+		})
+	}
+	if n < 4 {
+		undecidedf("zero-time rule matched %d conversions", n)
+	}
+}
+
+// ruleFullPrecisionDecodeNeedsShiftZero (K11): numeric/geo/date fields index
+// every value at several precisions (prefix-coded terms with shift 0, 4/9, ...)
+// and ALL of them reach a doc-value visitor.  Only the shift-0 term carries the
+// value; a coarser term decodes (without error) to the corner of its cell.  In
+// every function or closure of the given packages that receives a raw term as a
+// []byte parameter, PrefixCoded(term).Int64() must execute only under the
+// branch fact shift == 0, where shift was produced by Shift() /
+// ValidPrefixCodedTermBytes for the same term.
+func ruleFullPrecisionDecodeNeedsShiftZero(r *Report, rule string, pkgs ...string) {
+	p := r.P
+	n := 0
+	for _, fi := range p.flist {
+		rel := relPkg(fi.Pkg.PkgPath)
+		in := false
+		for _, q := range pkgs {
+			if rel == q {
+				in = true
+			}
+		}
+		if !in || fi.Decl.Body == nil {
+			continue
+		}
+		info := fi.Pkg.TypesInfo
+		// units: the declaration and every function literal, each with its own parameter list
+		type unit struct {
+			ft   *ast.FuncType
+			body *ast.BlockStmt
+			name string
+		}
+		units := []unit{{fi.Decl.Type, fi.Decl.Body, fi.Name}}
+		k := 0
+		ast.Inspect(fi.Decl.Body, func(x ast.Node) bool {
+			if fl, ok := x.(*ast.FuncLit); ok {
+				k++
+				units = append(units, unit{fl.Type, fl.Body, fmt.Sprintf("%s$%d", fi.Name, k)})
+			}
+			return true
+		})
+		for _, u := range units {
+			byteParams := map[types.Object]bool{}
+			for _, f := range u.ft.Params.List {
+				for _, nm := range f.Names {
+					if o := info.Defs[nm]; o != nil {
+						if sl, ok := o.Type().Underlying().(*types.Slice); ok {
+							if b, ok := sl.Elem().Underlying().(*types.Basic); ok && b.Kind() == types.Byte {
+								byteParams[o] = true
+							}
+						}
+					}
+				}
+			}
+			if len(byteParams) == 0 {
+				continue
+			}
+			var g *FCFG
+			// locals holding PrefixCoded(param)
+			derived := map[types.Object]bool{}
+			fromParam := func(e ast.Expr) bool {
+				e = ast.Unparen(e)
+				if c, ok := e.(*ast.CallExpr); ok && len(c.Args) == 1 {
+					if tv, ok := info.Types[c.Fun]; ok && tv.IsType() { // conversion
+						e = ast.Unparen(c.Args[0])
+					}
+				}
+				o := objOf(info, e)
+				return o != nil && (byteParams[o] || derived[o])
+			}
+			ast.Inspect(u.body, func(x ast.Node) bool {
+				if as, ok := x.(*ast.AssignStmt); ok && len(as.Lhs) == 1 && len(as.Rhs) == 1 && fromParam(as.Rhs[0]) {
+					if o := objOf(info, as.Lhs[0]); o != nil {
+						derived[o] = true
+					}
+				}
+				return true
+			})
+			// shift variables: results of Shift()/ValidPrefixCodedTermBytes on the term
+			shiftVars := map[types.Object]bool{}
+			ast.Inspect(u.body, func(x ast.Node) bool {
+				as, ok := x.(*ast.AssignStmt)
+				if !ok || len(as.Rhs) != 1 {
+					return true
+				}
+				c, ok := ast.Unparen(as.Rhs[0]).(*ast.CallExpr)
+				if !ok {
+					return true
+				}
+				f := callee(info, c)
+				if f == nil || f.Pkg() == nil || !strings.HasSuffix(f.Pkg().Path(), "/numeric") {
+					return true
+				}
+				idx := -1
+				switch f.Name() {
+				case "Shift":
+					if sel, ok := ast.Unparen(c.Fun).(*ast.SelectorExpr); ok && fromParam(sel.X) {
+						idx = 0
+					}
+				case "ValidPrefixCodedTermBytes", "ValidPrefixCodedTerm":
+					if len(c.Args) == 1 && fromParam(c.Args[0]) {
+						idx = 1
+					}
+				}
+				if idx >= 0 && idx < len(as.Lhs) {
+					if o := objOf(info, as.Lhs[idx]); o != nil {
+						shiftVars[o] = true
+					}
+				}
+				return true
+			})
+			ast.Inspect(u.body, func(x ast.Node) bool {
+				if fl, ok := x.(*ast.FuncLit); ok && fl.Body != u.body {
+					return false // its own unit
+				}
+				c, ok := x.(*ast.CallExpr)
+				if !ok {
+					return true
+				}
+				f := callee(info, c)
+				if f == nil || f.Name() != "Int64" || f.Pkg() == nil || !strings.HasSuffix(f.Pkg().Path(), "/numeric") {
+					return true
+				}
+				sel, ok := ast.Unparen(c.Fun).(*ast.SelectorExpr)
+				if !ok || !fromParam(sel.X) {
+					return true
+				}
+				if g == nil {
+					g = buildCFG(info, u.body)
+				}
+				ok2 := factMatch(g.GuardsOf(c), func(fc Fact) bool {
+					if fc.Tag != nil {
+						return false
+					}
+					be, isB := ast.Unparen(fc.Expr).(*ast.BinaryExpr)
+					if !isB {
+						return false
+					}
+					v, z := be.X, be.Y
+					if o := objOf(info, ast.Unparen(z)); o != nil && shiftVars[o] {
+						v, z = z, v
+					}
+					o := objOf(info, ast.Unparen(v))
+					if o == nil || !shiftVars[o] {
+						return false
+					}
+					tv, isC := info.Types[z]
+					if !isC || tv.Value == nil || constant.Sign(tv.Value) != 0 {
+						return false
+					}
+					return (be.Op == token.EQL && fc.Truth) || (be.Op == token.NEQ && !fc.Truth)
+				})
+				n++
+				r.Fn(fi)
+				r.Ob(rule, u.name+"/full-value-decoded-only-at-shift-zero", c.Pos(), ok2,
+					"a raw doc-value term is decoded with Int64() without the branch fact shift == 0: the coarser precision terms of the same value reach this visitor too and decode to the corner of their cell, so the filter/facet judges points the document does not have")
+				return true
+			})
+		}
+	}
+	if n < 5 {
+		undecidedf("shift-zero rule matched %d decodes", n)
+	}
+}
+
+// ruleGeoPointTermsOneIndexer (K12, sibling agreement): with the s2 plugin a
+// geopoint is indexed by (*Point).IndexTokens through ONE RegionTermIndexer of
+// the plugin (points-only options, its own level range).  The query-side
+// shapes of the same family (bounded rectangle, polygon, point-distance) must
+// derive their terms from that same indexer: a covering computed with other
+// level options produces cells whose terms were never indexed for points, so
+// documents inside the region are not even candidates.
+func ruleGeoPointTermsOneIndexer(r *Report, rule string) {
+	p := r.P
+	type use struct {
+		fi    *FuncInfo
+		field *types.Var
+		pos   token.Pos
+		all   []string
+	}
+	var uses []use
+	for _, fi := range p.flist {
+		if relPkg(fi.Pkg.PkgPath) != "geo" || fi.Decl.Body == nil || fi.Decl.Recv == nil {
+			continue
+		}
+		if nm := fi.Obj.Name(); nm != "IndexTokens" && nm != "QueryTokens" {
+			continue
+		}
+		sig := fi.Obj.Type().(*types.Signature)
+		if sig.Params().Len() != 1 {
+			continue
+		}
+		pl := sig.Params().At(0)
+		pt, ok := pl.Type().(*types.Pointer)
+		if !ok {
+			continue
+		}
+		pnt, _ := pt.Elem().(*types.Named)
+		if pnt == nil {
+			continue
+		}
+		if _, isSt := pnt.Underlying().(*types.Struct); !isSt {
+			continue
+		}
+		info := fi.Pkg.TypesInfo
+		u := use{fi: fi}
+		seen := map[string]bool{}
+		ast.Inspect(fi.Decl.Body, func(x ast.Node) bool {
+			sel, ok := x.(*ast.SelectorExpr)
+			if !ok || objOf(info, sel.X) != pl {
+				return true
+			}
+			if fv, ok := info.Uses[sel.Sel].(*types.Var); ok && fv.IsField() {
+				if !seen[fv.Name()] {
+					seen[fv.Name()] = true
+					u.all = append(u.all, fv.Name())
+				}
+				if u.field == nil {
+					u.field, u.pos = fv, sel.Pos()
+				}
+			}
+			return true
+		})
+		if u.field != nil {
+			uses = append(uses, u)
+		}
+	}
+	var ref *types.Var
+	for _, u := range uses {
+		if u.fi.Obj.Name() == "IndexTokens" {
+			if ref != nil && ref != u.field {
+				undecidedf("geopoint family: two indexing-side term indexers (%s, %s)", ref.Name(), u.field.Name())
+			}
+			ref = u.field
+		}
+	}
+	if ref == nil || len(uses) < 4 {
+		undecidedf("geopoint family: %d token methods use a plugin field, indexing side found=%v", len(uses), ref != nil)
+	}
+	for _, u := range uses {
+		r.Fn(u.fi)
+		r.Ob(rule, u.fi.Name+"/terms-from-the-indexing-side-indexer", u.pos, len(u.all) == 1 && u.field == ref,
+			"geopoints are indexed through plugin."+ref.Name()+" but "+u.fi.Name+" derives its terms from plugin."+strings.Join(u.all, ", plugin.")+": cells produced with other level options have no indexed counterpart, so points inside the query region are never candidates")
+	}
+}
+
+// ruleAccumulatingWalkVisitsWholeTree (K13): a self-recursive walker over the
+// query tree that threads an accumulator (a parameter whose type is also a
+// result type: the field set, the synonym map) must visit every node.  A
+// return that is conditional on the accumulator's CONTENT makes the result
+// depend on sibling order - the fields of every clause after the first one
+// that satisfied the test are never collected - so no return of such a walker
+// may execute under a branch fact that reads the accumulator, except the nil
+// test used for lazy allocation.
+func ruleAccumulatingWalkVisitsWholeTree(r *Report, rule string, pkgRel string) {
+	p := r.P
+	n := 0
+	for _, fi := range p.flist {
+		if relPkg(fi.Pkg.PkgPath) != pkgRel || fi.Decl.Body == nil || fi.Decl.Recv != nil {
+			continue
+		}
+		info := fi.Pkg.TypesInfo
+		sig := fi.Obj.Type().(*types.Signature)
+		var acc []*types.Var
+		for i := 0; i < sig.Params().Len(); i++ {
+			pv := sig.Params().At(i)
+			if isErrorType(pv.Type()) {
+				continue
+			}
+			for j := 0; j < sig.Results().Len(); j++ {
+				if types.Identical(pv.Type(), sig.Results().At(j).Type()) {
+					switch pv.Type().Underlying().(type) {
+					case *types.Map, *types.Slice, *types.Pointer:
+						acc = append(acc, pv)
+					}
+				}
+			}
+		}
+		if len(acc) == 0 {
+			continue
+		}
+		selfRec := false
+		ast.Inspect(fi.Decl.Body, func(x ast.Node) bool {
+			if c, ok := x.(*ast.CallExpr); ok && callee(info, c) == fi.Obj {
+				selfRec = true
+			}
+			return true
+		})
+		if !selfRec {
+			continue
+		}
+		g := buildCFG(info, fi.Decl.Body)
+		k := 0
+		var walk func(x ast.Node) bool
+		walk = func(x ast.Node) bool {
+			if _, ok := x.(*ast.FuncLit); ok {
+				return false
+			}
+			ret, ok := x.(*ast.ReturnStmt)
+			if !ok {
+				return true
+			}
+			k++
+			bad := ""
+			for _, fc := range g.GuardsOf(ret) {
+				if fc.Tag != nil {
+					continue
+				}
+				if _, _, isNil := nilTest(info, fc.Expr); isNil {
+					continue
+				}
+				ast.Inspect(fc.Expr, func(y ast.Node) bool {
+					if id, ok := y.(*ast.Ident); ok {
+						for _, a := range acc {
+							if info.Uses[id] == a {
+								bad = fc.String()
+							}
+						}
+					}
+					return true
+				})
+			}
+			n++
+			r.Fn(fi)
+			r.Ob(rule, fmt.Sprintf("%s/return-%d-independent-of-accumulated-content", fi.Name, k), ret.Pos(), bad == "",
+				"this walker threads an accumulator through the whole query tree, but the return executes under "+bad+", a test of what was accumulated so far: every clause visited after the test became true is skipped, so the collected set (and the nested/plain decision taken from it) depends on clause order")
+			return true
+		}
+		ast.Inspect(fi.Decl.Body, walk)
+	}
+	if n < 3 {
+		undecidedf("accumulating-walker rule matched %d returns in %s", n, pkgRel)
+	}
+}
+
+// ruleNestedDepthCarriedByRecursion (K5dep): the nested-prefix table records
+// ONLY nested object paths, each with the number of nested levels above and
+// including it.  Plain objects between two nested levels have no entry, so the
+// depth of a path cannot be recovered from a lookup of its parent in the table
+// being built; it has to be carried down the recursion.  Every value stored
+// into the table by buildNestedPrefixes must therefore not be derived from a
+// read of that same table.
+func ruleNestedDepthCarriedByRecursion(r *Report, rule string) {
+	p := r.P
+	fi := p.MustFunc("mapping.(*IndexMappingImpl).buildNestedPrefixes")
+	r.Fn(fi)
+	info := fi.Pkg.TypesInfo
+	sig := fi.Obj.Type().(*types.Signature)
+	if sig.Results().Len() != 1 {
+		undecidedf("%s: result shape changed", fi.Name)
+	}
+	// the table: the map variable that is returned
+	var table types.Object
+	ast.Inspect(fi.Decl.Body, func(x ast.Node) bool {
+		if _, ok := x.(*ast.FuncLit); ok {
+			return false
+		}
+		if ret, ok := x.(*ast.ReturnStmt); ok && len(ret.Results) == 1 {
+			table = objOf(info, ret.Results[0])
+		}
+		return true
+	})
+	if table == nil {
+		undecidedf("%s: returned table not found", fi.Name)
+	}
+	readsTable := func(e ast.Node) bool {
+		found := false
+		ast.Inspect(e, func(x ast.Node) bool {
+			if ix, ok := x.(*ast.IndexExpr); ok && objOf(info, ix.X) == table {
+				found = true
+			}
+			return true
+		})
+		return found
+	}
+	// locals (flow-insensitively) derived from a read of the table
+	tainted := map[types.Object]bool{}
+	for changed := true; changed; {
+		changed = false
+		ast.Inspect(fi.Decl.Body, func(x ast.Node) bool {
+			as, ok := x.(*ast.AssignStmt)
+			if !ok {
+				return true
+			}
+			for i, l := range as.Lhs {
+				if _, isIx := ast.Unparen(l).(*ast.IndexExpr); isIx {
+					continue
+				}
+				var rhs ast.Expr
+				if len(as.Rhs) == len(as.Lhs) {
+					rhs = as.Rhs[i]
+				} else if len(as.Rhs) == 1 {
+					rhs = as.Rhs[0]
+				}
+				o := objOf(info, l)
+				if o == nil || rhs == nil || tainted[o] {
+					continue
+				}
+				t := readsTable(rhs)
+				ast.Inspect(rhs, func(y ast.Node) bool {
+					if id, ok := y.(*ast.Ident); ok && tainted[info.Uses[id]] {
+						t = true
+					}
+					return true
+				})
+				if t {
+					tainted[o] = true
+					changed = true
+				}
+			}
+			return true
+		})
+	}
+	n := 0
+	ast.Inspect(fi.Decl.Body, func(x ast.Node) bool {
+		as, ok := x.(*ast.AssignStmt)
+		if !ok || len(as.Lhs) != 1 || len(as.Rhs) != 1 {
+			return true
+		}
+		ix, ok := ast.Unparen(as.Lhs[0]).(*ast.IndexExpr)
+		if !ok || objOf(info, ix.X) != table {
+			return true
+		}
+		n++
+		bad := readsTable(as.Rhs[0])
+		ast.Inspect(as.Rhs[0], func(y ast.Node) bool {
+			if id, ok := y.(*ast.Ident); ok && tainted[info.Uses[id]] {
+				bad = true
+			}
+			return true
+		})
+		r.Ob(rule, fmt.Sprintf("%s/stored-depth-%d-not-looked-up-in-the-table", fi.Name, n), as.Pos(), !bad,
+			"the depth stored for a nested path is derived from a lookup in the table under construction; the table has entries for nested paths only, so below a plain object the parent is missing, the lookup yields 0 and a second-level nested array is recorded at depth 1: NestedDepth then reports equal depths and a conjunction across the two levels is evaluated per document instead of per ancestor")
+		return true
+	})
+	if n < 1 {
+		undecidedf("%s: no store into the prefix table found", fi.Name)
+	}
+}
+
+// ruleMaskKeepsByteLength (K11): the html char filter runs before the
+// tokenizer and hides markup by overwriting it; token offsets are later used
+// against the ORIGINAL stored text, so each match must be replaced by exactly
+// len(match) bytes.  The callback handed to ReplaceAllFunc must return
+// bytes.Repeat(<one byte>, len(in)) or make([]byte, len(in)) for its own
+// parameter in; <one byte> is a value whose every definition in the package is
+// a one-byte literal.
+func ruleMaskKeepsByteLength(r *Report, rule string) {
+	p := r.P
+	fi := p.MustFunc("analysis/char/html.(*CharFilter).Filter")
+	r.Fn(fi)
+	info := fi.Pkg.TypesInfo
+	oneByte := func(e ast.Expr) bool {
+		e = ast.Unparen(e)
+		if c, ok := e.(*ast.CallExpr); ok && len(c.Args) == 1 {
+			if tv, ok := info.Types[c.Fun]; ok && tv.IsType() {
+				if av, ok := info.Types[c.Args[0]]; ok && av.Value != nil && av.Value.Kind() == constant.String {
+					return len(constant.StringVal(av.Value)) == 1
+				}
+			}
+		}
+		if cl, ok := e.(*ast.CompositeLit); ok && len(cl.Elts) == 1 {
+			if _, isKV := cl.Elts[0].(*ast.KeyValueExpr); !isKV {
+				return true
+			}
+		}
+		return false
+	}
+	// every definition of a field/variable in the package is a one-byte literal
+	var oneByteValue func(e ast.Expr) bool
+	oneByteValue = func(e ast.Expr) bool {
+		if oneByte(e) {
+			return true
+		}
+		var target types.Object
+		switch x := ast.Unparen(e).(type) {
+		case *ast.SelectorExpr:
+			target = info.Uses[x.Sel]
+		case *ast.Ident:
+			target = info.Uses[x]
+		}
+		if target == nil {
+			return false
+		}
+		defs, good := 0, 0
+		for _, f := range fi.Pkg.Syntax {
+			ast.Inspect(f, func(x ast.Node) bool {
+				switch s := x.(type) {
+				case *ast.KeyValueExpr:
+					if id, ok := s.Key.(*ast.Ident); ok && info.Uses[id] == target {
+						defs++
+						if oneByte(s.Value) {
+							good++
+						}
+					}
+				case *ast.AssignStmt:
+					for i, l := range s.Lhs {
+						var o types.Object
+						switch y := ast.Unparen(l).(type) {
+						case *ast.SelectorExpr:
+							o = info.Uses[y.Sel]
+						case *ast.Ident:
+							o = info.ObjectOf(y)
+						}
+						if o == target && i < len(s.Rhs) {
+							defs++
+							if oneByte(s.Rhs[i]) {
+								good++
+							}
+						}
+					}
+				case *ast.ValueSpec:
+					for i, nm := range s.Names {
+						if info.Defs[nm] == target && i < len(s.Values) {
+							defs++
+							if oneByte(s.Values[i]) {
+								good++
+							}
+						}
+					}
+				}
+				return true
+			})
+		}
+		return defs > 0 && defs == good
+	}
+	n := 0
+	ast.Inspect(fi.Decl.Body, func(x ast.Node) bool {
+		c, ok := x.(*ast.CallExpr)
+		if !ok {
+			return true
+		}
+		f := callee(info, c)
+		if f == nil || f.Name() != "ReplaceAllFunc" || len(c.Args) != 2 {
+			return true
+		}
+		fl, ok := ast.Unparen(c.Args[1]).(*ast.FuncLit)
+		if !ok || len(fl.Type.Params.List) != 1 || len(fl.Type.Params.List[0].Names) != 1 {
+			undecidedf("%s: replacement callback is not a one-parameter literal", fi.Name)
+		}
+		in := info.Defs[fl.Type.Params.List[0].Names[0]]
+		isLenIn := func(e ast.Expr) bool {
+			lc, ok := ast.Unparen(e).(*ast.CallExpr)
+			return ok && calleeBuiltin(info, lc) == "len" && len(lc.Args) == 1 && objOf(info, lc.Args[0]) == in
+		}
+		k := 0
+		ast.Inspect(fl.Body, func(y ast.Node) bool {
+			ret, ok := y.(*ast.ReturnStmt)
+			if !ok || len(ret.Results) != 1 {
+				return true
+			}
+			k++
+			n++
+			good := false
+			e := ast.Unparen(ret.Results[0])
+			// follow one local definition
+			if id, isId := e.(*ast.Ident); isId {
+				ast.Inspect(fl.Body, func(z ast.Node) bool {
+					if as, ok := z.(*ast.AssignStmt); ok && len(as.Lhs) == 1 && len(as.Rhs) == 1 && as.Tok == token.DEFINE && info.Defs[as.Lhs[0].(*ast.Ident)] == info.Uses[id] {
+						e = ast.Unparen(as.Rhs[0])
+					}
+					return true
+				})
+			}
+			if rc, ok := e.(*ast.CallExpr); ok {
+				if rf := callee(info, rc); rf != nil && rf.Name() == "Repeat" && rf.Pkg() != nil && rf.Pkg().Path() == "bytes" && len(rc.Args) == 2 {
+					good = isLenIn(rc.Args[1]) && oneByteValue(rc.Args[0])
+				} else if calleeBuiltin(info, rc) == "make" && len(rc.Args) == 2 {
+					good = isLenIn(rc.Args[1])
+				}
+			}
+			r.Ob(rule, fmt.Sprintf("%s/mask-%d-has-the-length-of-the-match", fi.Name, k), ret.Pos(), good,
+				"the markup mask returned here is "+exprShort(ret.Results[0])+", which is not provably len(match) bytes (accepted: bytes.Repeat(<one byte>, len(in)) or make([]byte, len(in))): a shorter or longer mask shifts every later token offset against the stored text, so locations and highlighted spans point at the wrong bytes")
+			return true
+		})
+		return true
+	})
+	if n < 1 {
+		undecidedf("%s: no ReplaceAllFunc mask found", fi.Name)
+	}
+}
+
+// ruleMemoKeyCoversInputs (K6/K9): a function that answers from a map when the
+// key is present (`if v, ok := m[k]; ok { return v }`) and otherwise computes
+// the value, stores it under the same map and returns it, is a memo.  A memo is
+// only transparent when the key determines the value: every PARAMETER (receiver
+// included) the computed value depends on must also be something the key
+// depends on, or be the owner of the map itself.  A missing input means the
+// first caller's answer is served to callers for which it is wrong.
+func ruleMemoKeyCoversInputs(r *Report, rule string, minSites int, allow map[string]string, pkgPrefixes ...string) {
+	p := r.P
+	n := 0
+	for _, fi := range p.flist {
+		if fi.Decl.Body == nil {
+			continue
+		}
+		rel := relPkg(fi.Pkg.PkgPath)
+		in := false
+		for _, q := range pkgPrefixes {
+			if q == "" || rel == q || strings.HasPrefix(rel, q+"/") {
+				in = true
+			}
+		}
+		if !in {
+			continue
+		}
+		info := fi.Pkg.TypesInfo
+		// parameters and receiver
+		params := map[string]*types.Var{}
+		sig := fi.Obj.Type().(*types.Signature)
+		addP := func(v *types.Var) {
+			if v != nil && v.Name() != "" && v.Name() != "_" {
+				params["v:"+v.Name()+"@"+itoa(int(v.Pos()))] = v
+			}
+		}
+		addP(sig.Recv())
+		for i := 0; i < sig.Params().Len(); i++ {
+			addP(sig.Params().At(i))
+		}
+		if len(params) == 0 {
+			continue
+		}
+		// lookups that return the looked-up value when present
+		type lookup struct {
+			m   ast.Expr
+			key ast.Expr
+		}
+		var lookups []lookup
+		var g *FCFG
+		ast.Inspect(fi.Decl.Body, func(x ast.Node) bool {
+			if _, ok := x.(*ast.FuncLit); ok {
+				return false
+			}
+			as, ok := x.(*ast.AssignStmt)
+			if !ok || len(as.Lhs) != 2 || len(as.Rhs) != 1 {
+				return true
+			}
+			ix, ok := ast.Unparen(as.Rhs[0]).(*ast.IndexExpr)
+			if !ok {
+				return true
+			}
+			if _, isMap := info.TypeOf(ix.X).Underlying().(*types.Map); !isMap {
+				return true
+			}
+			vObj, okObj := objOf(info, as.Lhs[0]), objOf(info, as.Lhs[1])
+			if vObj == nil || okObj == nil {
+				return true
+			}
+			// some return hands out the looked-up value under the fact "present"
+			ast.Inspect(fi.Decl.Body, func(y ast.Node) bool {
+				if _, ok := y.(*ast.FuncLit); ok {
+					return false
+				}
+				ret, ok := y.(*ast.ReturnStmt)
+				if !ok {
+					return true
+				}
+				hands := false
+				for _, res := range ret.Results {
+					if objOf(info, res) == vObj {
+						hands = true
+					}
+				}
+				if !hands {
+					return true
+				}
+				if g == nil {
+					g = buildCFG(info, fi.Decl.Body)
+				}
+				if factMatch(g.GuardsOf(ret), func(fc Fact) bool { return fc.Tag == nil && fc.Truth && objOf(info, fc.Expr) == okObj }) {
+					dup := false
+					for _, l := range lookups {
+						if exprStr(l.m) == exprStr(ix.X) {
+							dup = true
+						}
+					}
+					if !dup {
+						lookups = append(lookups, lookup{ix.X, ix.Index})
+					}
+				}
+				return true
+			})
+			return true
+		})
+		if len(lookups) == 0 {
+			continue
+		}
+		d := newDeps(info, fi.Decl.Body)
+		for _, lk := range lookups {
+			mstr := exprStr(ast.Unparen(lk.m))
+			ast.Inspect(fi.Decl.Body, func(x ast.Node) bool {
+				if _, ok := x.(*ast.FuncLit); ok {
+					return false
+				}
+				as, ok := x.(*ast.AssignStmt)
+				if !ok || len(as.Lhs) != 1 || len(as.Rhs) != 1 {
+					return true
+				}
+				ix, ok := ast.Unparen(as.Lhs[0]).(*ast.IndexExpr)
+				if !ok || exprStr(ast.Unparen(ix.X)) != mstr {
+					return true
+				}
+				n++
+				keySlice := d.SliceOfExpr(ix.Index)
+				for a := range d.SliceOfExpr(lk.key) {
+					keySlice[a] = true
+				}
+				owner := map[string]bool{}
+				if id := baseIdent(lk.m); id != nil {
+					owner[d.varKey(id)] = true
+				}
+				valSlice := d.SliceOfExpr(as.Rhs[0])
+				var missing []string
+				for k, v := range params {
+					if valSlice[k] && !keySlice[k] && !owner[k] {
+						missing = append(missing, v.Name())
+					}
+				}
+				sort.Strings(missing)
+				if os.Getenv("MEMO_DEBUG") != "" {
+					fmt.Fprintln(os.Stderr, fi.Name, "params", len(params), "val", sliceAtoms(valSlice, "v:"), "key", sliceAtoms(keySlice, "v:"))
+				}
+				r.Fn(fi)
+				if why, ok := allow[fi.Name]; ok && len(missing) > 0 {
+					r.Allow(rule, fi.Name+"/memo-"+exprShort(lk.m)+"-key-determines-value", as.Pos(), why)
+					return true
+				}
+				r.Ob(rule, fi.Name+"/memo-"+exprShort(lk.m)+"-key-determines-value", as.Pos(), len(missing) == 0,
+					"the value memoised in "+mstr+" is computed from parameter(s) "+strings.Join(missing, ", ")+" that the key "+exprStr(ix.Index)+" does not depend on: the first caller's result is served to later callers whose "+strings.Join(missing, "/")+" differs")
+				return true
+			})
+		}
+	}
+	if n < minSites {
+		undecidedf("memo rule matched %d memo stores (expected at least %d)", n, minSites)
+	}
+}
